@@ -51,6 +51,9 @@ def writeDoc (clen : Nat → List Nat → Nat) (minBlockSize : Nat) (w : DW) (id
     let w1 : DW := { w with positions := (id, pos) :: w.positions, docs := w.docs ++ encDoc doc }
     some (if w1.docs.length > minBlockSize then flushBlock clen w1 else w1)
 
+/-- `getDocBlocksWriter`: `if blockSize <= 0 { blockSize = consts.MB * 4 }` -/
+def docBlockSizeOf (blockSize : Nat) : Nat := if blockSize = 0 then 4194304 else blockSize
+
 /-- `Flush` -/
 def flushDW (clen : Nat → List Nat → Nat) (w : DW) : DW := if w.docs.length > 0 then flushBlock clen w else w
 
@@ -68,7 +71,7 @@ def sortDocsGo (clen : Nat → List Nat → Nat) (minBlockSize : Nat) (oldRead :
 
 /-- `writeSortedDocs`: ids without the system slot, then `Flush` -/
 def writeSortedDocs (clen : Nat → List Nat → Nat) (minBlockSize : Nat) (oldRead : ID → Option DocB) (sortedIDs : List ID) : Option DW :=
-  (sortDocsGo clen minBlockSize oldRead sortedIDs.tail (0, 0) DW.init).map (flushDW clen)
+  (sortDocsGo clen (docBlockSizeOf minBlockSize) oldRead sortedIDs.tail (0, 0) DW.init).map (flushDW clen)
 
 def lookupPos (positions : List (ID × Nat)) (id : ID) : Option Nat := (positions.find? (fun p => p.1 == id)).map (·.2)
 
